@@ -614,6 +614,13 @@ def compare(got, exp):
     gc_ = [(h, f, tuple(("Err",) if (isinstance(x, tuple) and x[:1] == ("Err",) and i < len(e[2]) and e[2][i] == ("Err",)) else x for i, x in enumerate(p))) for (h, f, p), e in zip(gc, ec)] + gc[len(ec):]
     if gc_ != ec:
         return "handlers run %s, expected %s" % (_fmt_calls(gc), _fmt_calls(ec))
+    if isinstance(exp["result"], tuple) and exp["result"] == ("class", "any"):
+        # whatever the verdict - it must be one (no panic), and an error is reported once
+        if got["result"] == "panic":
+            return "panics"
+        if got["result"] != "Ok" and got["hook"] != [got["result"]]:
+            return "error hook given %s, expected exactly the returned error %s once" % (got["hook"], got["result"])
+        return None
     if isinstance(exp["result"], tuple) and exp["result"][0] == "class":
         lo, hi = {"command": (-199, -100), "execution": (-299, -200)}[exp["result"][1]]
         codes = error_numbers()
@@ -943,6 +950,12 @@ def corpus_capacity(tier):
             caps = list(range(0, n + 2))
         for cp in caps:
             rows.append((t, h, us, cp, trail, []))
+    # hostile input against a small buffer: an error, never a panic (u8 counters, slice arithmetic)
+    for m, verdict in ((b"ANY " + b"A" * 256, "command"), (b"ANY " + b"A" * 300 + b",1", "command"), (b"B" * 256, "command"), (b"*" + b"C" * 299 + b"?", "command"), (b"ANY 1 " + b"V" * 256, "command"),
+                       (b"ANY 1" + b"V" * 270, "command"), (b"ANY #H" + b"F" * 300, "any"), (b"ANY #B" + b"1" * 300, "any"), (b"ANY " + b"9" * 300 + b"." + b"9" * 300 + b"E" + b"9" * 300, "any"),
+                       (b"ANY? #3" + b"9" * 3, "any"), (b"ANY? #9999999999", "any"), (b"ANY (" + b"(" * 40, "any"), (b"ANY '" + b"'" * 257, "any")):
+        for cp in (0, 4):
+            rows.append((tree, hs, [Raw(m, None, ("class", verdict))], cp, False, []))
     return rows
 
 
@@ -961,6 +974,7 @@ def corpus_corrupt(tier):
             for m in bad:
                 rows.append(m)
     rows += [b"ANY 'abc", b'ANY "abc', b"ANY #15ab", b"ANY #3", b"ANY #", b"ANY #H", b"ANY #HG", b"ANY (1,2", b"ANY 1e", b"ANY? 1,2,", b"ANY? 'a',", b"ANY #13abc,", b"ANY (1),", b"ANY #HFF,", b"ANY MAX,", b"ANY 1 V,",
+             b"ANY(1)", b"*OPC(@1)", b"BRAN(1)", b"BRAN:LEAF(1,2)", b"ANY?(1)", b"ANY\"x\"", b"ANY#HFF", b"ANY#11a",
              b"*IDN?,", b"*IDN? ,", b":", b"ANY;:", b"ANY:", b"*OPC:?", b"ANY 1;;ANY", b"\xffANY", b"ANY\xff", b"A NY", b"ANY 1,\xff"]
     seen = []
     for m in rows:
@@ -986,7 +1000,7 @@ def table(name, tier):
         if post and exp["result"] == "Ok":
             exp = ref_run_raw(tree, hs, list(us) + list(post), cap, trail)
         got = run_message(tree, hs, msg, cap)
-        if name == "corrupt":
+        if len(us) == 1 and isinstance(us[0], Raw) and us[0].call is None and isinstance(us[0].error, tuple) and us[0].error[0] == "class":
             # only the verdict matters: a command error, reported once; which handlers ran before it is not prescribed
             if isinstance(got, dict):
                 got = dict(got, calls=[])
